@@ -105,6 +105,21 @@ def pick_sigs(r, idx, req_fqn, cross, hostile, avoid_defects=False):
         if items and r.random() < 0.1:
             s = s + ","
         sigs.append(s)
+    # two consecutive signatures where one is a textual prefix of the other although they name different fields
+    # ("name" / "name_suffix,..."), in either order; and cumulative overloads ("name" / "name,<more>") as the control
+    top = {p for p, f, c in cands if "." not in p}
+    longer = next((x for x in ("name_suffix", "names") if x in top), None)
+    if "name" in top and r.random() < 0.5 and "name" not in chosen and (longer is None or longer not in chosen) \
+            and not any(q.split(".")[-1] in ("name", longer) for q in chosen):
+        extra_ = next((p for p, f, c in cands if "." not in p and p not in chosen and p not in ("name", longer)
+                       and p.split(".")[-1] not in used_last), None)
+        if longer is not None and r.random() < 0.7:
+            pair = ["name", longer + ("," + extra_ if extra_ and r.random() < 0.5 else "")]
+            if r.random() < 0.4:
+                pair.reverse()
+        else:
+            pair = ["name", "name" + ("," + extra_ if extra_ else "")]
+        sigs = sigs + pair if r.random() < 0.5 else pair + sigs
     return sigs
 
 
@@ -188,6 +203,21 @@ def witness_api(kind):
         svc = main.service("Library", host="library.example.com")
         svc.rpc("GetBook", rq.fqn, resp.fqn, sigs=["name," + ("shared,library" if sub else "library"), "tags"])
         return apigen.request(files + [main], to_generate=togen + [main.proto.name], parameter="transport=grpc")
+    if kind == "prefix_signatures":
+        main = apigen.File("google/example/library/v1/library.proto", "google.example.library.v1", deps=list(apigen.STD_DEPS))
+        book = main.message("Book")
+        book.field("name", 1, "string")
+        rq = main.message("FindRequest")
+        rq.field("shelf", 1, "string").field("shelf_prefix", 2, "string").field("limit", 3, "int32").field("name", 4, "string")
+        rq.field("names", 5, "string", repeated=True).field("widget", 6, book.fqn).field("widget_id", 7, "string").field("parent", 8, "string")
+        svc = main.service("Library", host="library.example.com")
+        svc.rpc("FindShelves", rq.fqn, book.fqn, sigs=["shelf", "shelf_prefix,limit"])
+        svc.rpc("FindNames", rq.fqn, book.fqn, sigs=["name", "names"])
+        svc.rpc("FindNamesReversed", rq.fqn, book.fqn, sigs=["names", "name"])
+        svc.rpc("FindWidgets", rq.fqn, book.fqn, sigs=["widget", "widget_id", "parent"])
+        svc.rpc("FindCumulative", rq.fqn, book.fqn, sigs=["parent", "parent,widget", "parent,widget,limit"])
+        svc.rpc("FindMixed", rq.fqn, book.fqn, sigs=["parent", "parent,shelf", "shelf", "shelf_prefix", "limit"])
+        return apigen.request([main], parameter="transport=grpc")
     if kind == "paged_pb2_request":
         dep = apigen.File("acme/common/v1/common.proto", "acme.common.v1")
         lreq = dep.message("ListRequest")
@@ -275,7 +305,7 @@ def witness_api(kind):
 # corpus/C05/<kind>.json holds each of these (written by write_corpus); the first four are the witnesses of defects that were
 # repaired in /repo (353b7c7, 14fc9e4, d43e852, 318bb4b; paged_pb2_request: 9678930): they stay so that a regression is reported
 WITNESSES = ["cross_two_repeated", "cross_dotted", "reserved_in_pb2", "reserved_segment", "presence", "pb2_reserved_leaf",
-             "sub_reserved_leaf", "module_named_param", "module_named_param_sub", "paged_reuse", "paged_pb2_request", "control_name", "duplicate_param", "empty_container_dotted", "falsy_request", "keyword_param_pb2"]
+             "sub_reserved_leaf", "module_named_param", "module_named_param_sub", "paged_reuse", "paged_pb2_request", "prefix_signatures", "control_name", "duplicate_param", "empty_container_dotted", "falsy_request", "keyword_param_pb2"]
 # a witness whose class is not yet in findings/known_findings.json is reported in scratch/findings and joins the run once it is
 PENDING = {"pb2_nonprimitive_leaf": "flatten.nonprimitive_leaf_in_pb2_submessage"}
 CORPUS = os.path.join(env.VERIF, "corpus", "C05")
